@@ -256,6 +256,9 @@ impl StdfsEntry {
             let e = r->Ok_0;
             &&& a is Some && e.path@ == a->Some_0 && e.path.abs_clean() && os_stat_ok(abs_comps(a->Some_0), false)
             &&& e.link == os_is_link(abs_comps(a->Some_0)) && !e.follow && e.cached
+            // kind and mode: of the entry itself for a non-link (lstat), of what the link resolves to for a link (stat of the link's own path)
+            &&& e.dir == os_is_dir(abs_comps(a->Some_0), !e.link) && e.file == os_is_file(abs_comps(a->Some_0), !e.link)
+                && e.mode == os_mode(abs_comps(a->Some_0), !e.link)                                                          //@ clause stdfs.entry.kind_is_that_of_the_resolved_target [C10]
             &&& !e.link ==> e.alt.comps() == Seq::<Comp>::empty() && e.rel.comps() == Seq::<Comp>::empty()
             &&& e.link ==> a->Some_0.len() > 0 && ({
                     // alt is the absolute form of the stored text (relative text is joined onto the link's directory); rel is alt relative to that directory
@@ -350,12 +353,14 @@ impl VfsEntry {
 impl EntriesIt {
     pub uninterp spec fn left(&self) -> nat;      // ASSUMED[traversal]: a traversal is finite
     pub uninterp spec fn troot(&self) -> PathV;
-    #[verifier::external_body] pub fn follow(self, yes: bool) -> (r: EntriesIt) ensures r.left() == self.left(), r.troot() == self.troot() { unimplemented!() }
-    #[verifier::external_body] pub fn max_depth(self, n: usize) -> (r: EntriesIt) ensures r.left() == self.left(), r.troot() == self.troot() { unimplemented!() }
+    pub uninterp spec fn tfollow(&self) -> bool;
+    pub uninterp spec fn tdepth(&self) -> usize;
+    #[verifier::external_body] pub fn follow(self, yes: bool) -> (r: EntriesIt) ensures r.left() == self.left(), r.troot() == self.troot(), r.tfollow() == yes, r.tdepth() == self.tdepth() { unimplemented!() }
+    #[verifier::external_body] pub fn max_depth(self, n: usize) -> (r: EntriesIt) ensures r.left() == self.left(), r.troot() == self.troot(), r.tdepth() == n, r.tfollow() == self.tfollow() { unimplemented!() }
     // ASSUMED[traversal]: yielded paths lie at or below the traversal root
     #[verifier::external_body]
     pub fn next(&mut self) -> (r: Option<RvResult<VfsEntry>>)
-        ensures r is Some ==> final(self).left() < old(self).left(), final(self).troot() == old(self).troot(),
+        ensures r is Some ==> final(self).left() < old(self).left(), final(self).troot() == old(self).troot(), final(self).tfollow() == old(self).tfollow(), final(self).tdepth() == old(self).tdepth(),
                 (r is Some && r->Some_0 is Ok) ==> in_sub(old(self).troot(), r->Some_0->Ok_0.xpath())
     { unimplemented!() }
 }
@@ -392,7 +397,7 @@ pub uninterp spec fn req_symlink(link: Comps, target: Comps) -> bool;
 pub uninterp spec fn req_mkdir_m(p: Comps, mode: u32) -> bool;
 pub uninterp spec fn ent_mode(p: Comps) -> u32;
 impl Stdfs {
-    #[verifier::external_body] pub fn entries<T: PathArg>(path: T) -> (r: RvResult<EntriesIt>) ensures (r is Ok && path.pok()) ==> r->Ok_0.troot() == path.pv() { unimplemented!() }
+    #[verifier::external_body] pub fn entries<T: PathArg>(path: T) -> (r: RvResult<EntriesIt>) ensures (r is Ok && path.pok()) ==> r->Ok_0.troot() == path.pv(), r is Ok ==> !r->Ok_0.tfollow() && r->Ok_0.tdepth() == usize::MAX { unimplemented!() }
     #[verifier::external_body] pub fn symlink_req(link: PathBuf, target: &PathBuf) -> (r: RvResult<PathBuf>) ensures r is Ok ==> req_symlink(link.comps(), target.comps()) { unimplemented!() }
     #[verifier::external_body] pub fn mkdir_m_req<T: PathArg>(p: T, mode: u32) -> (r: RvResult<PathBuf>) ensures r is Ok ==> req_mkdir_m(p.pc(), mode) { unimplemented!() }
     #[verifier::external_body] pub fn entry_mode<T: PathArg>(p: T) -> (r: RvResult<u32>) ensures r is Ok ==> r->Ok_0 == ent_mode(p.pc()) { unimplemented!() }
@@ -431,6 +436,9 @@ impl Stdfs {
         // the root of the traversal: the source itself, or its target when following a link
         let ghost a = src_root.xpath();
 //@ endins
+//@ ins after re⟦\{ let mut __it1 = [^;]*;⟧
+        proof { assert(__it1.tfollow() == cp.follow && __it1.tdepth() == usize::MAX); }      //@ clause stdfs.copy.traverses_the_whole_source_and_follows_as_requested [C09]
+//@ endins
 //@ loop 1
             invariant
                 src_root.xpath() == a, dst_root.abs_clean(), dst_root@ == b, __it1.troot() == a,
@@ -453,7 +461,13 @@ impl Stdfs {
     pub fn _copy(cp: CopyOpts) -> (r: RvResult<()>)
 //@ body
 
-//@ item _chown file=src/sys/fs/stdfs/mod.rs block="impl Stdfs" fn=_chown props=C11,C12
+//@ item _chown file=src/sys/fs/stdfs/mod.rs block="impl Stdfs" fn=_chown props=C11,C10,C01,C12
+//@ ins before re⟦\{ let mut __it1 =⟧
+        let ghost want_depth: usize = if opts.recursive { usize::MAX } else { 0 };
+//@ endins
+//@ ins after re⟦\{ let mut __it1 = [^;]*;⟧
+        proof { assert(__it1.tfollow() == opts.follow && __it1.tdepth() == want_depth); }      //@ clause stdfs.chown.traverses_recursively_or_not_and_follows_as_requested [C11]
+//@ endins
 //@ sig fn _chown(opts: ChownOpts) -> RvResult<()>
 //@ rw R8 * ⟦let uid = opts.uid.map(nix::unistd::Uid::from_raw);⟧ => ⟦let uid = opts.uid;⟧
 //@ rw R8 * ⟦let gid = opts.gid.map(nix::unistd::Gid::from_raw);⟧ => ⟦let gid = opts.gid;⟧
@@ -492,10 +506,10 @@ pub open spec fn revoking(old: u32, new: u32) -> bool { old & 0o0500 > new & 0o0
 #[verifier::external_body]
 pub fn revoking_mode(old: u32, new: u32) -> (r: bool) ensures r == revoking(old, new) { unimplemented!() }
 impl EntriesIt {
-    #[verifier::external_body] pub fn contents_first(self) -> (r: EntriesIt) ensures r.left() == self.left(), r.troot() == self.troot() { unimplemented!() }
-    #[verifier::external_body] pub fn dirs_first(self) -> (r: EntriesIt) ensures r.left() == self.left(), r.troot() == self.troot() { unimplemented!() }
+    #[verifier::external_body] pub fn contents_first(self) -> (r: EntriesIt) ensures r.left() == self.left(), r.troot() == self.troot(), r.tfollow() == self.tfollow(), r.tdepth() == self.tdepth() { unimplemented!() }
+    #[verifier::external_body] pub fn dirs_first(self) -> (r: EntriesIt) ensures r.left() == self.left(), r.troot() == self.troot(), r.tfollow() == self.tfollow(), r.tdepth() == self.tdepth() { unimplemented!() }
     // R13: `.pre_op(move |x| { .. })`: the boxed closure is verified as its own item (chmod_pre_op)
-    #[verifier::external_body] pub fn pre_op_set(self) -> (r: EntriesIt) ensures r.left() == self.left(), r.troot() == self.troot() { unimplemented!() }
+    #[verifier::external_body] pub fn pre_op_set(self) -> (r: EntriesIt) ensures r.left() == self.left(), r.troot() == self.troot(), r.tfollow() == self.tfollow(), r.tdepth() == self.tdepth() { unimplemented!() }
 }
 // the request _chmod sends: an octal value of 0 means "no mode given" everywhere in the chmod API, so mode 0 must never be requested
 #[verifier::external_body]
@@ -527,6 +541,9 @@ impl Stdfs {
 //@ rw R13 1 re⟦\.pre_op\(move \|x\| \{.*?\}\);⟧ => ⟦.pre_op_set();⟧
 //@ rw R8 + re⟦\bsys::mode\(⟧ => ⟦sys_mode(⟧
 //@ rw R3 1 for
+//@ ins after re⟦\{ let mut __it1 = [^;]*;⟧
+        proof { assert(__it1.tfollow() == opts.follow && __it1.tdepth() == (if opts.recursive { usize::MAX } else { 0usize })); }      //@ clause stdfs.chmod.traverses_recursively_or_not_and_follows_as_requested [C11]
+//@ endins
 //@ loop 1
             invariant true,
             decreases __it1.left()
